@@ -2,6 +2,7 @@ package rules
 
 import (
 	"fmt"
+	"go/ast"
 	"go/token"
 	"strings"
 
@@ -181,4 +182,157 @@ func RCiRef(c *core.Ctx) {
 		}
 	}
 	c.Check(okFold && nCmp > 0, "regexp2.(*Runner).refmatch / both sides folded with the same function", refmatch.Pos(), "%d case-insensitive comparison(s)", nCmp)
+}
+
+// ---------------------------------------------------------------------------
+// R-ADDMONO: "add…" methods of CharSet only add.
+// A method that makes a class case-insensitive has to keep every member the
+// class already has (a character always matches itself) and may only add the
+// variants.  Overwriting a range entry in place (c.ranges[i] = …) replaces a
+// member: `(?i)[İ]` loses İ when it is overwritten by its lowercase i.
+// Only canonicalize, which merges overlapping entries, may rewrite entries.
+// ---------------------------------------------------------------------------
+
+func RAddMono(c *core.Ctx) {
+	c.Rule("R-ADDMONO", "no CharSet method other than canonicalize (merging) and the un-flip routine stores into an element of the receiver's ranges (c.ranges[i] = …): methods that add members, lowercase forms or case equivalents never replace an existing member", 1)
+	p := c.P
+	rng := p.LookupField("syntax", "CharSet", "ranges")
+	neg := p.LookupField("syntax", "CharSet", "negate")
+	if rng == nil || neg == nil {
+		c.Anchor("syntax.CharSet.ranges / negate")
+		return
+	}
+	n := 0
+	for _, fn := range p.ModuleFuncs() {
+		recv := fn.Signature.Recv()
+		if recv == nil {
+			continue
+		}
+		if _, nm := core.NamedOf(recv.Type()); nm != "CharSet" {
+			continue
+		}
+		name := core.SSAName(fn)
+		// canonicalize-like: writes negate (it re-normalises the representation as a whole)
+		renorm := false
+		for _, b := range fn.Blocks {
+			for _, ins := range b.Instrs {
+				if st, ok := ins.(*ssa.Store); ok && core.FieldVarOfAddr(st.Addr) == neg {
+					renorm = true
+				}
+			}
+		}
+		cnt := 0
+		for _, b := range fn.Blocks {
+			for _, ins := range b.Instrs {
+				st, ok := ins.(*ssa.Store)
+				if !ok {
+					continue
+				}
+				// store to (part of) an element: IndexAddr, or FieldAddr of an IndexAddr
+				addr := st.Addr
+				if fa, ok := addr.(*ssa.FieldAddr); ok {
+					addr = fa.X
+				}
+				ia, ok := addr.(*ssa.IndexAddr)
+				if !ok {
+					continue
+				}
+				ld, ok := ia.X.(*ssa.UnOp)
+				if !ok || core.FieldVarOfAddr(ld.X) != rng {
+					continue
+				}
+				if fa, ok := ld.X.(*ssa.FieldAddr); !ok || len(fn.Params) == 0 || fa.X != fn.Params[0] {
+					continue
+				}
+				cnt++
+				n++
+				c.Visit(name)
+				c.Check(renorm, fmt.Sprintf("%s / in-place store #%d into c.ranges is part of a re-normalisation", name, cnt), st.Pos(),
+					"an existing range entry is overwritten by a method that is supposed to add to the class: the member that was there is no longer matched")
+			}
+		}
+	}
+	if n == 0 {
+		c.Anchor("in-place stores into CharSet.ranges elements")
+	}
+}
+
+// ---------------------------------------------------------------------------
+// R-FOLDSIB: who decides that a bare character has case variants.
+// Under IgnoreCase a class gets its variants from the SimpleFold orbit
+// (addCaseEquivalences / tryFindCaseEquivalences).  The decision whether a
+// bare character needs to become such a class must use the same relation:
+// a general-category test (IsLower / IsUpper / IsLetter) is narrower — title
+// case letters (ǅ), enclosed letters (Ⓐ ⓐ), Roman numerals (Ⅰ ⅰ), U+0345
+// have fold partners without being Lu or Ll — and the literal would then match
+// case-sensitively while the same character in brackets does not.
+// ---------------------------------------------------------------------------
+
+func RFoldSib(c *core.Ctx) {
+	c.Rule("R-FOLDSIB", "in package syntax every conditional call of addCaseEquivalences (turning a bare character into a case-insensitive class) is guarded by the fold relation itself (unicode.SimpleFold / tryFindCaseEquivalences), never by a general-category predicate (unicode.IsLower, IsUpper, IsLetter, IsTitle): characters with fold partners outside Lu/Ll would keep matching case-sensitively", 1)
+	p := c.P
+	syn := p.Pkg("syntax")
+	info := syn.TypesInfo
+	ace := p.LookupFunc("syntax", "CharSet.addCaseEquivalences")
+	if ace == nil {
+		c.Anchor("syntax.CharSet.addCaseEquivalences")
+		return
+	}
+	catPred := map[string]bool{"IsLower": true, "IsUpper": true, "IsLetter": true, "IsTitle": true}
+	n := 0
+	for _, fd := range p.FuncDecls(syn) {
+		if fd.Body == nil || p.IsTestFile(fd.Pos()) {
+			continue
+		}
+		name := core.DeclName(syn, fd)
+		var stack []ast.Node
+		cnt := 0
+		ast.Inspect(fd.Body, func(x ast.Node) bool {
+			if x == nil {
+				stack = stack[:len(stack)-1]
+				return true
+			}
+			stack = append(stack, x)
+			call, ok := x.(*ast.CallExpr)
+			if !ok || core.Callee(info, call) != ace {
+				return true
+			}
+			// enclosing if conditions (then-branches) inside this function
+			var bad []string
+			guarded := false
+			for i := len(stack) - 2; i >= 0; i-- {
+				ifs, ok := stack[i].(*ast.IfStmt)
+				if !ok || !(ifs.Body.Pos() <= call.Pos() && call.End() <= ifs.Body.End()) {
+					continue
+				}
+				guarded = true
+				check := func(e ast.Node) {
+					ast.Inspect(e, func(y ast.Node) bool {
+						if c2, ok := y.(*ast.CallExpr); ok {
+							if cal := core.Callee(info, c2); cal != nil && cal.Pkg() != nil && cal.Pkg().Path() == "unicode" && catPred[cal.Name()] {
+								bad = append(bad, "unicode."+cal.Name())
+							}
+						}
+						return true
+					})
+				}
+				check(ifs.Cond)
+				if ifs.Init != nil {
+					check(ifs.Init)
+				}
+			}
+			if !guarded {
+				return true
+			}
+			cnt++
+			n++
+			c.Visit(name)
+			c.Check(len(bad) == 0, fmt.Sprintf("%s / conditional addCaseEquivalences #%d is decided by the fold relation", name, cnt), call.Pos(),
+				"the decision to build a case-insensitive class uses %v: a character with fold partners that is neither Lu nor Ll (ǅ, Ⓐ, Ⅰ, U+0345) is left as a case-sensitive literal", bad)
+			return true
+		})
+	}
+	if n == 0 {
+		c.Anchor("conditional calls of addCaseEquivalences")
+	}
 }
